@@ -189,6 +189,10 @@ func runSLH(rc *sk.RunCtx, focus string) {
 	// underlay range except the lighthouse: tunnels to such a node exist through the relay only, while its peers
 	// keep probing it directly from the denied addresses
 	relayOn := tp.Chance(1, 2)
+	// tier2: node 1 is itself a lighthouse (am_lighthouse) that keeps node 0 under lighthouse.hosts — a lighthouse
+	// with an upstream lighthouse. What the upstream sends it about a third host A is a query answer (filed under
+	// the upstream's name), never A's own record, which is what this lighthouse would serve.
+	tier2 := tp.Chance(1, 4)
 	mw := buildMesh(rc, meshOpts{minNodes: 3, maxNodes: 5, allowLighthouse: true, forceLH: true, multiAddr: true, allowV1: true, horizon: horizon,
 		extra: func(i int, s *nodeSpec) {
 			// multi-homing
@@ -240,6 +244,9 @@ func runSLH(rc *sk.RunCtx, focus string) {
 			if relayOn && i == 0 {
 				s.relay = true
 			}
+			if tier2 && i == 1 {
+				s.lighthouse = true
+			}
 			if i > 0 && (relayOn || tp.Chance(1, 2)) {
 				// the node advertises relays, listed in descending order (the candidate list must come out sorted
 				// and deduplicated whatever the reporting order, also for peers with a single direct address)
@@ -261,7 +268,7 @@ func runSLH(rc *sk.RunCtx, focus string) {
 	w.meshWorld = mw
 	n := len(mw.nodes)
 	w.byz = 1 + tp.Choose(n-1)
-	if tp.Chance(1, 4) {
+	if tp.Chance(1, 4) || (tier2 && tp.Chance(1, 2)) {
 		// the lighthouse itself misbehaves: what it sends is authorized only for as long as the receiver still
 		// lists it under lighthouse.hosts (reloads drop it, see dropLighthouse)
 		w.byz = 0
@@ -278,7 +285,10 @@ func runSLH(rc *sk.RunCtx, focus string) {
 		w.statics = append(w.statics, st)
 		_ = i
 	}
-	rc.Logf("byzantine peer: n%d; allow lists: %v", w.byz, useAllow)
+	rc.Logf("byzantine peer: n%d; allow lists: %v; node 1 is a second-tier lighthouse: %v", w.byz, useAllow, tier2)
+	if tier2 {
+		w.stats["world.tier2_lighthouse"]++
+	}
 
 	mw.onWire = func(from *simNode, d *simDatagram) { w.checkDestination(from, d) }
 	w.marked = map[slhMarkKey]*slhMark{}
@@ -1020,9 +1030,19 @@ func (w *slhWorld) byzantineMessage() {
 	changed := before != after
 	switch {
 	case isLH:
-		// only the sender's own entry, only its own owner slot
+		// only the sender's own entry, only its own owner slot. A lighthouse that lists the sender as its own
+		// (upstream) lighthouse also takes query answers from it: those may touch any entry, but still only the slot
+		// filed under the sender's name — never the slot holding what the described host reported itself, which is
+		// what this lighthouse serves.
+		upstreamReply := zIsLHofT && typ == NebulaMeta_HostQueryReply
+		if upstreamReply {
+			w.stats["probe.upstream_reply_to_lighthouse"]++
+		}
+		if zIsLHofT && typ == NebulaMeta_HostPunchNotification {
+			punched = false
+		}
 		if changed {
-			if bad := foreignChange(before, after, Z.f.myVpnAddrs); bad != "" {
+			if bad := foreignChange(before, after, Z.f.myVpnAddrs, upstreamReply); bad != "" {
 				w.fail("C35", "foreign-entry-changed", "%s changed lighthouse state outside the sender's own entry:\n%s", desc, bad)
 				return
 			}
@@ -1091,7 +1111,7 @@ func (w *slhWorld) AddSimTimeAndNow(d time.Duration) {
 
 // foreignChange returns a description of a lighthouse cache change that is not
 // confined to the entries/owner slot of addrs.
-func foreignChange(before, after string, own []netip.Addr) string {
+func foreignChange(before, after string, own []netip.Addr, anyEntry bool) string {
 	parse := func(s string) map[string]string {
 		m := map[string]string{}
 		for _, l := range strings.Split(s, "\n") {
@@ -1125,7 +1145,7 @@ func foreignChange(before, after string, own []netip.Addr) string {
 				mine = true
 			}
 		}
-		if !mine {
+		if !mine && !anyEntry {
 			return fmt.Sprintf("entry %s\nbefore: %s\nafter:  %s", k, b[k], a[k])
 		}
 		// inside the own entry only the own owner slot may differ: compare with the own slot removed
@@ -1149,6 +1169,10 @@ func foreignChange(before, after string, own []netip.Addr) string {
 					s = s[:i] + s[j:]
 				}
 			}
+			// the removed slot leaves its separator behind
+			s = strings.ReplaceAll(s, "{,", "{")
+			s = strings.ReplaceAll(s, ",}", "}")
+			s = strings.ReplaceAll(s, ",,", ",")
 			return s
 		}
 		// an entry that did not exist before equals an empty one: creating one's own entry with only one's own
